@@ -103,7 +103,7 @@ func Load(repoDir string) (*Engine, error) {
 			continue
 		}
 		for _, f := range p.GoFiles {
-			if filepath.Base(f) == "verif_contracts.go" {
+			if b := filepath.Base(f); strings.HasPrefix(b, "verif_contracts") && strings.HasSuffix(b, ".go") {
 				if err := e.Specs.ParseFile(f, p.PkgPath); err != nil {
 					return nil, err
 				}
